@@ -255,22 +255,49 @@ inline void randomHistory(Ctx& c, long idx)
     c.count("histories");
 }
 
+// deterministic: thousands of endpoints with a reassembly open at the same time (the table rehashes several times while
+// entries exist), completed / aborted in another order; every step is compared with the model
+inline void manyOpen(Ctx& c, long j)
+{
+    Rng r = c.fixedRng(j, 33);
+    Monitor m{c};
+    const size_t n = j == 0 ? 300 : 1500;
+    std::vector<Ep> eps;
+    for (size_t i = 0; i < n; ++i)
+        eps.push_back(Ep{static_cast<uint16_t>(j == 0 ? i : i * 41), static_cast<uint8_t>(i % 251), static_cast<uint16_t>(r.next())});
+    for (auto& e : eps)
+        m.feed(letterFrame(L_F, e, r), "F");
+    // a middle segment for every third, then finish all in a stride order
+    for (size_t i = 0; i < n; i += 3)
+        m.feed(letterFrame(L_M, eps[i], r), "M");
+    for (size_t k = 0; k < n; ++k)
+    {
+        size_t i = (k * 7919) % n;
+        int letter = (k % 5 == 0) ? L_U : ((k % 7 == 0) ? L_X : L_L);
+        m.feed(letterFrame(letter, eps[i], r), letterName(letter));
+    }
+    c.count("histories_with_hundreds_of_open_endpoints");
+}
+
 inline long count(Ctx& c)
 {
-    return kSeq5 + (c.thorough() ? kSeq4x2 + 500000 : 8000);
+    return kSeq5 + 2 + (c.thorough() ? kSeq4x2 + 500000 : 8000);
 }
 inline void run(Ctx& c, long idx)
 {
     if (idx < kSeq5)
         return exhaustiveOne(c, idx);
     idx -= kSeq5;
+    if (idx < 2)
+        return manyOpen(c, idx);
+    idx -= 2;
     if (c.thorough())
     {
         if (idx < kSeq4x2)
             return exhaustiveTwo(c, idx);
         idx -= kSeq4x2;
     }
-    randomHistory(c, idx + kSeq5 + kSeq4x2);
+    randomHistory(c, idx + kSeq5 + kSeq4x2 + 2);
 }
 
 }  // namespace c17
